@@ -398,23 +398,100 @@ def is_plain(loc, fs_paths, base_phys):
 # one batch = one (instance, spelling) group, run in a worker process
 
 
-def build_model(onnx, locs, path):
-    tensors = []
+# where the n-th external tensor of the model sits (PathContain.tla, Placements); position 0 of the cycle is the
+# plain initializer so that single-tensor models (load_to_model path) keep their shape
+PLACEMENTS = ["initializer", "node-attribute", "subgraph-initializer", "function-node-attribute",
+              "tensors-attribute", "subgraph-node-attribute", "function-subgraph-initializer",
+              "nested-subgraph-node-attribute"]
+
+
+def _ext_tensor_proto(onnx, name, loc):
+    tp = onnx.TensorProto()
+    tp.name = name
+    tp.data_type = onnx.TensorProto.UINT8
+    tp.dims.append(NBYTES)
+    tp.data_location = onnx.TensorProto.EXTERNAL
+    for k, v in (("location", loc), ("offset", "0"), ("length", str(NBYTES))):
+        e = tp.external_data.add()
+        e.key, e.value = k, v
+    return tp
+
+
+def build_model(onnx, locs, path, placements=True):
+    """A model file whose n-th external tensor (name t<n>) sits at PLACEMENTS[n % 8] (all initializers when
+    placements is False)."""
+    h = onnx.helper
+    by = {pl: [] for pl in PLACEMENTS}
     for n, loc in enumerate(locs):
-        tp = onnx.TensorProto()
-        tp.name = f"t{n}"
-        tp.data_type = onnx.TensorProto.UINT8
-        tp.dims.append(NBYTES)
-        tp.data_location = onnx.TensorProto.EXTERNAL
-        for k, v in (("location", loc), ("offset", "0"), ("length", str(NBYTES))):
-            e = tp.external_data.add()
-            e.key, e.value = k, v
-        tensors.append(tp)
-    graph = onnx.helper.make_graph([], "g", [], [], initializer=tensors)
-    model = onnx.helper.make_model(graph, opset_imports=[onnx.helper.make_opsetid("", 20)])
+        by[PLACEMENTS[n % len(PLACEMENTS)] if placements else "initializer"].append(_ext_tensor_proto(onnx, f"t{n}", loc))
+
+    def consts(tps, pre):
+        return [h.make_node("Constant", [], [f"{pre}_{tp.name}"], value=tp) for tp in tps]
+
+    def body(name, nodes, inits=()):
+        return h.make_graph(nodes + [h.make_node("Identity", ["a"], [f"{name}_o"])], name, [],
+                            [h.make_tensor_value_info(f"{name}_o", onnx.TensorProto.UINT8, [NBYTES])], initializer=list(inits))
+
+    nodes = consts(by["node-attribute"], "c")
+    if by["tensors-attribute"]:
+        nodes.append(h.make_node("Multi", [], ["multi_o"], domain="vf.custom", tensors=by["tensors-attribute"]))
+    if by["subgraph-initializer"] or by["subgraph-node-attribute"] or by["nested-subgraph-node-attribute"]:
+        inner = body("inner", consts(by["nested-subgraph-node-attribute"], "n"))
+        then_nodes = consts(by["subgraph-node-attribute"], "s")
+        if by["nested-subgraph-node-attribute"]:
+            then_nodes.append(h.make_node("If", ["cond"], ["inner_if_o"], then_branch=inner, else_branch=body("inner_else", [])))
+        nodes.append(h.make_node("If", ["cond"], ["if_o"], then_branch=body("then", then_nodes, by["subgraph-initializer"]),
+                                 else_branch=body("else", [])))
+    functions = []
+    if by["function-node-attribute"] or by["function-subgraph-initializer"]:
+        fnodes = consts(by["function-node-attribute"], "f")
+        if by["function-subgraph-initializer"]:
+            fnodes.append(h.make_node("If", ["cond"], ["fif_o"],
+                                      then_branch=body("fthen", [], by["function-subgraph-initializer"]),
+                                      else_branch=body("felse", [])))
+        fnodes.append(h.make_node("Identity", ["a"], ["fo"]))
+        functions.append(h.make_function("vf.local", "F", ["a", "cond"], ["fo"], fnodes, [h.make_opsetid("", 20)]))
+        nodes.append(h.make_node("F", ["a", "cond"], ["f_o"], domain="vf.local"))
+    graph = h.make_graph(nodes, "g",
+                         [h.make_tensor_value_info("a", onnx.TensorProto.UINT8, [NBYTES]),
+                          h.make_tensor_value_info("cond", onnx.TensorProto.BOOL, [])],
+                         [], initializer=by["initializer"])
+    model = h.make_model(graph, opset_imports=[h.make_opsetid("", 20), h.make_opsetid("vf.custom", 1),
+                                               h.make_opsetid("vf.local", 1)], functions=functions)
     model.ir_version = 10
     with open(path, "wb") as f:
         f.write(model.SerializeToString())
+
+
+def model_tensors(ir, model):
+    """Every tensor object of a loaded model by name -> (tensor, placement), found by the harness's own walk over
+    graphs, node attributes (TENSOR, TENSORS, GRAPH, GRAPHS) and functions."""
+    found = {}
+
+    def graph(g, where, depth):
+        for v in (g.initializers.values() if hasattr(g, "initializers") else ()):
+            if v.const_value is not None:
+                found[v.const_value.name] = (v.const_value, f"{where}{'subgraph-' if depth else ''}initializer")
+        for node in g:
+            for a in node.attributes.values():
+                if a.is_ref() or a.value is None:
+                    continue
+                pre = where + ("nested-subgraph-" if depth > 1 else "subgraph-" if depth else "")
+                if a.type == ir.AttributeType.TENSOR:
+                    found[a.value.name] = (a.value, pre + "node-attribute")
+                elif a.type == ir.AttributeType.TENSORS:
+                    for t in a.value:
+                        found[t.name] = (t, pre + "tensors-attribute" if depth else where + "tensors-attribute")
+                elif a.type == ir.AttributeType.GRAPH:
+                    graph(a.value, where, depth + 1)
+                elif a.type == ir.AttributeType.GRAPHS:
+                    for sg in a.value:
+                        graph(sg, where, depth + 1)
+
+    graph(model.graph, "", 0)
+    for fn in model.functions.values():
+        graph(fn, "function-", 0)
+    return found
 
 
 def run_batch(task):
@@ -509,33 +586,41 @@ def run_batch(task):
             mp = render(rr["mp"], root)
             mfile = os.path.join(root, "base", "m.onnx")
             build_model(onnx, locstrs, mfile)
-            # the base directory the loader derives
+            # the base directory the loader derives, for every tensor of the model wherever it sits
             model = ir.load(mp)
-            got_bases = {str(v.const_value.base_dir) for v in model.graph.initializers.values()}
-            lb = dict(mp=mp, got=sorted(got_bases), want=expected_base, ok=True)
+            found = model_tensors(ir, model)
+            if len(found) != len(cases):
+                raise RuntimeError(f"loaded model has {len(found)} tensors, built with {len(cases)}")
             model_dir = os.path.join(root, "base")
-            for gb in got_bases:
+            got_bases, bad_pl = set(), set()
+            for nm, (t, pl) in found.items():
+                want_pl = PLACEMENTS[int(nm[1:]) % len(PLACEMENTS)]
+                if pl != want_pl:
+                    raise RuntimeError(f"tensor {nm} found at {pl}, built at {want_pl}")
+                gb = str(t.base_dir)
+                got_bases.add(gb)
                 if gb == "" or os.path.realpath(gb) != model_dir:
-                    lb["ok"] = False
+                    bad_pl.add(pl)
+            lb = dict(mp=mp, got=sorted(got_bases), want=expected_base, ok=not bad_pl, placements=sorted(bad_pl))
             lb["same_spelling"] = got_bases == {expected_base}
             res["loadbase"] = lb
             base_phys = ["R", "base"]
             for entry in entries:
                 model = ir.load(mp)
-                inits = list(model.graph.initializers.values())
-                if len(inits) != len(cases):
-                    raise RuntimeError("loaded model lost initializers")
-                for n, (c, ls, v) in enumerate(zip(cases, locstrs, inits)):
+                found = model_tensors(ir, model)
+                if len(found) != len(cases):
+                    raise RuntimeError("loaded model lost tensors")
+                for n, (c, ls) in enumerate(zip(cases, locstrs)):
                     if entry not in entries_for(n, c):
                         continue
-                    t = v.const_value
+                    t = found[f"t{n}"][0]
                     if not isinstance(t, ir.ExternalTensor) or str(t.location) != ls:
                         raise RuntimeError(f"loaded tensor for {ls!r} is {t!r}")
                     plain = is_plain(c[0], fs_paths, base_phys)
                     obs = observe(np, ir, t, entry, destf)
                     judge.judge(c, ls, entry, obs, plain)
                     res["reads"] += 1
-                del model, inits
+                del model, found
             for c in cases:
                 k = f"{c[1]}/{c[3]}"
                 res["kinds"][k] = res["kinds"].get(k, 0) + 1
@@ -543,7 +628,7 @@ def run_batch(task):
             # ---- the genuine load_to_model + serialize_model path on single-initializer models -----
             small = [(c, ls) for c, ls in zip(cases, locstrs) if len(c[0]) <= 1 or c[0] in task.get("l2m_extra", [])]
             for c, ls in small:
-                build_model(onnx, [ls], mfile)
+                build_model(onnx, [ls], mfile, placements=False)
                 model = ir.load(mp)
                 global _REC
                 _REC = []
